@@ -15,49 +15,58 @@ VARIABLE c
 tvars == <<st, hist, c>>
 TraceInit == st = S0 /\ hist = <<>> /\ c = 1 /\ TLCSet(1, <<>>) /\ TLCSet(2, 0) /\ TLCSet(3, 0) /\ TLCSet(4, 0)
 
-\* Numbers are equal when they denote the same decimal, whatever Go type carries them, or when one is a float64 and the
-\* other's exact decimal rounds to that float64 (C02 lets a parser return either for the same literal, so a difference
-\* of representation between a fast and a slow path is not a different value).
 NumKey(v) == IF v.t = "flt" THEN v.exact ELSE v.dec
 IsNum(v) == v.t \in {"int", "flt", "big"}
 IsDec(d) == "digits" \in DOMAIN d
 RoundsTo(d, f) == /\ IsDec(d) /\ f.t = "flt"
                   /\ f.inf = 0 /\ DecCmp(f.lo, d) <= 0 /\ DecCmp(d, f.hi) <= 0         \* an infinity equals no decimal
-NumEq(a, b) == \/ NumKey(a) = NumKey(b)
-               \/ RoundsTo(NumKey(a), b)
-               \/ RoundsTo(NumKey(b), a)
+\* Equality comes in two strengths.  STRICT (s = TRUE, the one that decides): numbers are equal when they denote the same decimal,
+\* whatever Go type carries them - a float64 and a text number are equal only if the float's exact value IS that decimal.  LOOSE
+\* (s = FALSE): additionally a float64 equals a decimal that rounds to it.  A disagreement that is strict-only is a difference of
+\* representation between two paths of the number accumulator for the same literal; it is reported with locus `repr:...`.
+NumEqX(a, b, s) == \/ NumKey(a) = NumKey(b)
+                   \/ (~s /\ (RoundsTo(NumKey(a), b) \/ RoundsTo(NumKey(b), a)))
 \* a big number and a string are equal when the string is a JSON number literal denoting the same decimal
 BigIsText(big, txt) == \/ big.text = txt
                        \/ /\ txt # <<>> /\ LET e == RunSeq(S0, txt) IN Accepts(e) /\ NumEndOK(e.pc)
                           /\ IsDec(big.dec) /\ DecEq(PNum(txt, 1).v.dec, big.dec)
-RECURSIVE ValEq(_, _)
-ValEq(a, b) ==
-  IF IsNum(a) /\ IsNum(b) THEN NumEq(a, b)
+RECURSIVE ValEqX(_, _, _)
+ValEqX(a, b, s) ==
+  IF IsNum(a) /\ IsNum(b) THEN NumEqX(a, b, s)
   ELSE IF a.t = "big" /\ b.t = "str" THEN BigIsText(a, b.v)     \* gen.Big simplifies to its text
   ELSE IF a.t = "str" /\ b.t = "big" THEN BigIsText(b, a.v)
   ELSE IF a.t # b.t THEN FALSE
   ELSE CASE a.t = "null" -> TRUE
          [] a.t = "bool" -> a.v = b.v
          [] a.t = "str" -> a.v = b.v
-         [] a.t = "arr" -> Len(a.v) = Len(b.v) /\ \A i \in 1..Len(a.v) : ValEq(a.v[i], b.v[i])
-         [] a.t = "obj" -> a.k = b.k /\ \A i \in 1..Len(a.v) : ValEq(a.v[i], b.v[i])
+         [] a.t = "arr" -> Len(a.v) = Len(b.v) /\ \A i \in 1..Len(a.v) : ValEqX(a.v[i], b.v[i], s)
+         [] a.t = "obj" -> a.k = b.k /\ \A i \in 1..Len(a.v) : ValEqX(a.v[i], b.v[i], s)
          [] OTHER -> a = b
+ValEq(a, b) == ValEqX(a, b, TRUE)
 Fam(gs, f) == SelectSeq(gs, LAMBDA g : g.fam = f)
 NoPanic(gs) == \A i \in 1..Len(gs) : gs[i].r # 2
-AgreeSingle(gs) == \/ Len(gs) <= 1
-                   \/ \A i \in 1..Len(gs) : gs[i].r = 0
-                   \/ \A i \in 1..Len(gs) : gs[i].r = 1 /\ ValEq(gs[i].v, gs[1].v)
+AgreeSingleX(gs, s) == \/ Len(gs) <= 1
+                       \/ \A i \in 1..Len(gs) : gs[i].r = 0
+                       \/ \A i \in 1..Len(gs) : gs[i].r = 1 /\ ValEqX(gs[i].v, gs[1].v, s)
+AgreeSingle(gs) == AgreeSingleX(gs, TRUE)
 \* Multi-document mode.  Without an error: the same sequence of documents.  With an error (in every case): the statement
 \* compares "the sequence of documents delivered"; whether the value being completed when the error is detected (e.g. the
 \* number in `1 2,`) was already handed to the callback is left open, so the sequences may differ by that one trailing
 \* document but must otherwise be prefixes of each other.
-DocsPrefix(a, b) == Len(a) <= Len(b) /\ \A k \in 1..Len(a) : ValEq(a[k], b[k])
-AgreeMulti(gs) == \/ Len(gs) <= 1
-                  \/ \A i \in 1..Len(gs) : /\ gs[i].err = gs[1].err
-                                            /\ IF gs[1].err
-                                               THEN \/ DocsPrefix(gs[i].docs, gs[1].docs) /\ Len(gs[1].docs) - Len(gs[i].docs) <= 1
-                                                    \/ DocsPrefix(gs[1].docs, gs[i].docs) /\ Len(gs[i].docs) - Len(gs[1].docs) <= 1
-                                               ELSE Len(gs[i].docs) = Len(gs[1].docs) /\ DocsPrefix(gs[i].docs, gs[1].docs)
+DocsPrefixX(a, b, s) == Len(a) <= Len(b) /\ \A k \in 1..Len(a) : ValEqX(a[k], b[k], s)
+AgreeMultiX(gs, s) == \/ Len(gs) <= 1
+                      \/ \A i \in 1..Len(gs) : /\ gs[i].err = gs[1].err
+                                                /\ IF gs[1].err
+                                                   THEN \/ DocsPrefixX(gs[i].docs, gs[1].docs, s) /\ Len(gs[1].docs) - Len(gs[i].docs) <= 1
+                                                        \/ DocsPrefixX(gs[1].docs, gs[i].docs, s) /\ Len(gs[i].docs) - Len(gs[1].docs) <= 1
+                                                   ELSE Len(gs[i].docs) = Len(gs[1].docs) /\ DocsPrefixX(gs[i].docs, gs[1].docs, s)
+AgreeMulti(gs) == AgreeMultiX(gs, TRUE)
+\* the representation class of a strict-only disagreement: the only literals for which the CURRENT code picks the representation by
+\* path are those whose digits start with 922337203685477580 (the int64 top-8 band, where the fast digit loops hand over to the text
+\* number one digit early - ojg's own parser tests encode it); anything else is "other"
+Top8Pfx == <<57, 50, 50, 51, 51, 55, 50, 48, 51, 54, 56, 53, 52, 55, 55, 53, 56, 48>>
+HasTop8(x) == \E p \in 1..(Len(x) - 17) : SubSeq(x, p, p + 17) = Top8Pfx /\ (p = 1 \/ x[p - 1] \notin 48..57)
+Repr(k, loose) == IF ~loose THEN "no" ELSE IF HasTop8(Trace[k].b) THEN "top8" ELSE "other"
 \* the harness merges observations with identical projections; groups that are equal in the sense of the specification
 \* (same outcome, ValEq values) get the same class number, so that a representation difference is never blamed
 SameSingle(a, b) == a.r = b.r /\ (a.r # 1 \/ ValEq(a.v, b.v))
@@ -72,12 +81,15 @@ Judge(k) ==
       J == Fam(o, "J")
       S == Fam(o, "S")
   IN (IF ~NoPanic(o) THEN <<[i |-> k, kind |-> "panic", fam |-> "-", gs |-> Summary(SelectSeq(o, LAMBDA g : g.r = 2))]>> ELSE <<>>)
-     \o (IF ~AgreeSingle(J) THEN <<[i |-> k, kind |-> "disagree", fam |-> "J", gs |-> Summary(J)]>> ELSE <<>>)
-     \o (IF ~AgreeSingle(S) THEN <<[i |-> k, kind |-> "disagree", fam |-> "S", gs |-> Summary(S), sv |-> StrictValid(Trace[k].b)]>> ELSE <<>>)
+     \o (IF ~AgreeSingle(J) THEN <<[i |-> k, kind |-> "disagree", fam |-> "J", gs |-> Summary(J), repr |-> Repr(k, AgreeSingleX(J, FALSE))]>> ELSE <<>>)
+     \o (IF ~AgreeSingle(S) THEN <<[i |-> k, kind |-> "disagree", fam |-> "S", gs |-> Summary(S), sv |-> StrictValid(Trace[k].b),
+                                      repr |-> Repr(k, AgreeSingleX(S, FALSE))]>> ELSE <<>>)
      \o (IF AgreeSingle(J) /\ AgreeSingle(S) /\ J # <<>> /\ S # <<>> /\ StrictValid(Trace[k].b) /\ ~AgreeSingle(<<J[1], S[1]>>)
-         THEN <<[i |-> k, kind |-> "disagree", fam |-> "J~S", gs |-> Summary(<<J[1], S[1]>>)]>> ELSE <<>>)
-     \o (IF ~AgreeMulti(Fam(m, "J")) THEN <<[i |-> k, kind |-> "disagree-multi", fam |-> "J", gs |-> SummaryM(Fam(m, "J"))]>> ELSE <<>>)
-     \o (IF ~AgreeMulti(Fam(m, "S")) THEN <<[i |-> k, kind |-> "disagree-multi", fam |-> "S", gs |-> SummaryM(Fam(m, "S"))]>> ELSE <<>>)
+         THEN <<[i |-> k, kind |-> "disagree", fam |-> "J~S", gs |-> Summary(<<J[1], S[1]>>), repr |-> Repr(k, AgreeSingleX(<<J[1], S[1]>>, FALSE))]>> ELSE <<>>)
+     \o (IF ~AgreeMulti(Fam(m, "J")) THEN <<[i |-> k, kind |-> "disagree-multi", fam |-> "J", gs |-> SummaryM(Fam(m, "J")),
+                                              repr |-> Repr(k, AgreeMultiX(Fam(m, "J"), FALSE))]>> ELSE <<>>)
+     \o (IF ~AgreeMulti(Fam(m, "S")) THEN <<[i |-> k, kind |-> "disagree-multi", fam |-> "S", gs |-> SummaryM(Fam(m, "S")),
+                                              repr |-> Repr(k, AgreeMultiX(Fam(m, "S"), FALSE))]>> ELSE <<>>)
 CheckCase == /\ c <= N
              /\ c' = c + 1 /\ UNCHANGED <<st, hist>>
              /\ LET j == Judge(c) IN
